@@ -361,3 +361,91 @@ def undocumented_shown(views, meta):
                     if s is not None and not meta[s]["d"]:
                         out.append((fl, meta[s]["k"], s))
     return out
+
+
+# ---------------------------------------------------------------- C04: layout variants of one abstract program
+def items_of(prog, cmds, seed, trigger=TRIGGER, first_line_text=False):
+    """layout-free description of the module: list of (kind, payload) in source order"""
+    rng = random.Random(seed)
+    items = []
+    stack = []
+    for idx, p in enumerate(prog):
+        i = idx + 1
+        c = cmds[p["ci"] - 1]
+        k = c["k"]
+        actual = rng.choice(OTHER_NAMES) if k == "other" else k
+        doc = None
+        if p["d"]:
+            doc = ["doc w%d of item %d" % (i, i), "", "  indented w%d" % i]
+            if c.get("trig"):
+                doc.append("%s opts: options w%d" % (trigger, i))
+        if k in ("endfunction", "endmacro", "cpp_end_class") and stack:
+            stack.pop()
+        items.append({"name": actual, "args": [subst(a, i) for a in c["ord"]], "doc": doc, "depth": len(stack),
+                      "first": ("brief w%d" % i) if (first_line_text and doc) else ""})
+        if k in ("function", "macro", "cpp_class"):
+            stack.append(k)
+    while stack:
+        k = stack.pop()
+        items.append({"name": {"function": "endfunction", "macro": "endmacro", "cpp_class": "cpp_end_class"}[k], "args": [],
+                      "doc": None, "depth": len(stack), "first": ""})
+    return items
+
+
+def render_baseline(items):
+    out = []
+    for it in items:
+        if it["doc"] is not None:
+            out.append("#[[[" + (" " + it["first"] if it["first"] else ""))
+            out += [("# " + l) if l else "#" for l in it["doc"]]
+            out.append("#]]")
+        out.append("%s(%s)" % (it["name"], " ".join(it["args"])))
+    return "\n".join(out) + "\n"
+
+
+def render_variant(items, trivia, vseed):
+    """Same token sequence, different layout: trivia from TLC's catalogue between tokens, doc blocks re-indented,
+    command names re-cased.  trivia = {"sep": [...], "gap": [...], "end": [...]} as concrete strings."""
+    rng = random.Random(vseed)
+    seps = [t for t in trivia["sep"]]
+    gaps = trivia["gap"]
+    ends = [e for e in trivia["end"] if e]
+    out = []
+
+    def sep(must_space):
+        t = rng.choice(seps) if rng.random() < 0.7 else " "
+        if must_space and not any(ch in t for ch in " \t\n"):
+            t = t + " "
+        if must_space and t[0] not in " \t\n" and rng.random() < 0.5:
+            t = " " + t
+        return t
+    for it in items:
+        for _ in range(rng.randint(0, 2)):
+            out.append(rng.choice(gaps))
+        ind = "".join(rng.choice(" \t") for _ in range(rng.choice([0, 0, 1, 2, 4, 7, 9])))
+        if it["doc"] is not None:
+            dind = "".join(rng.choice(" \t") for _ in range(rng.choice([0, 1, 2, 4, 6, 8, 11])))
+            out.append(dind + "#[[[" + (" " + it["first"] if it["first"] else "") + "\n")
+            for l in it["doc"]:
+                out.append(dind + (("# " + l) if l else "#") + "\n")
+            out.append(dind + "#]]")
+            # between a doccomment and its command: at least a line ending, then any trivia
+            out.append(rng.choice(["\n", " \n", "\n\n", "\n# a line comment\n", " #[[ bracket ]] \n", "\n#[=[ (\" ]=]\n"]))
+        name = "".join(ch.upper() if rng.random() < 0.5 else ch.lower() for ch in it["name"])
+        out.append(ind + name + rng.choice(["", " ", "\t", "  "]) + "(")
+        args = it["args"]
+        for j, a in enumerate(args):
+            if j == 0:
+                out.append(sep(False) if rng.random() < 0.5 else "")
+            else:
+                out.append(sep(True))
+            out.append(a)
+        if rng.random() < 0.5:
+            t = sep(False)
+            # a line comment must not swallow the closing parenthesis
+            if "#" in t and not t.endswith("\n") and not t.rstrip().endswith("]"):
+                t += "\n"
+            out.append(t)
+        out.append(")")
+        out.append(rng.choice(ends))
+    return "".join(out)
